@@ -199,7 +199,7 @@ def run(E: Engine, rep: Report, tier: str) -> dict:
     # get_traps_from_coordinates looks up the rounded coordinate in _coords_to_traps
     gt = P.lookup_method(traps, "get_traps_from_coordinates")[0]
     Sgt = _ST(E, gt)
-    keys_ = [m_["Q_k"] for top in [Sgt.ret] + [l.value for l in Sgt.log if l.value is not None] if top is not None for m_ in _symT.find_all(top, _symT.Pattern("self._coords_to_traps[Q_k]"))]
+    keys_ = [m_["Q_k"] for top in [Sgt.ret] + [l.value for l in Sgt.log if l.value is not None] if top is not None for pat_k in ("self._coords_to_traps[Q_k]", "self._coords_to_traps.get(Q_k)") for m_ in _symT.find_all(top, _symT.Pattern(pat_k))]
 
     def _rounded(k_):
         for t in _symT.subterms(k_):
